@@ -87,7 +87,7 @@ func RunHarness(src, pkg string, timeout time.Duration) (string, error) {
 	os.WriteFile(ovFile, ov, 0o644)
 	ctx, cancel := context.WithTimeout(context.Background(), timeout)
 	defer cancel()
-	cmd := exec.CommandContext(ctx, "go", "test", "-overlay", ovFile, "-vet=off", "-count=1", "-timeout", "120s", "-run", "^TestVerifReplay$", "-v", "./"+pkg)
+	cmd := exec.CommandContext(ctx, "go", "test", "-overlay", ovFile, "-vet=off", "-count=1", "-timeout", "900s", "-run", "^TestVerifReplay$", "-v", "./"+pkg)
 	cmd.Dir = RepoDir
 	cmd.Env = append(os.Environ(), "GOFLAGS=-mod=mod", "GOPROXY=off", "GOSUMDB=off", "GOTOOLCHAIN=local")
 	var out bytes.Buffer
